@@ -31,6 +31,8 @@ def expr_src(e, nm):
         return f"{A} + {B}"
     if op == "mul":
         return f"{A} * {B}"
+    if op == "sub":
+        return f"{A} - {B}"
     if op == "lt":
         return f"{A} < {c}"
     if op == "gt":
@@ -80,13 +82,14 @@ def block_src(b, nm, ind):
 
 def program_src(prog, ret, scheme=0, fname="f"):
     nm = NAME_SCHEMES[scheme]
-    lines = ["from onnxscript import script, INT64, BOOL", "from onnxscript import opset18 as op", ""]
+    lines = ["from typing import Tuple", "from onnxscript import script, INT64, BOOL", "from onnxscript import opset18 as op", ""]
     if uses(prog, "call"):
         lines += ["@script(default_opset=op)", "def h(u: INT64) -> INT64:", "    return u * 2 + 1", ""]
     params = f"{nm['a']}: INT64, {nm['n']}: INT64"
     if uses(prog, "attr"):
         params += ", alpha: int = 2"
-    lines += ["@script(default_opset=op)", f"def {fname}({params}):"]
+    rt = "INT64" if len(ret) == 1 else "Tuple[" + ", ".join(["INT64"] * len(ret)) + "]"
+    lines += ["@script(default_opset=op)", f"def {fname}({params}) -> {rt}:"]
     lines += block_src(prog, nm, 1)
     lines.append("    return " + ", ".join(nm[v] for v in ret))
     return "\n".join(lines) + "\n"
